@@ -259,9 +259,15 @@ func (o *c18obs) requester(i int, prog []c18op) {
 		wi := o.waits[i]
 		o.waits[i] = c18wait{}
 		r := c18res{thread: i, round: round, waited: wi.w != nil, t0: t0, until: until}
-		timeout, overridden := o.s.wait, false
+		timeout := o.s.wait
 		if op.reqTimeout > 0 && op.reqTimeout < timeout {
-			timeout, overridden = op.reqTimeout, true
+			timeout = op.reqTimeout
+		}
+		if r.waited && o.s.deadline {
+			mcrt.Covered("waiter-deadline-checked")
+			if until > t0+timeout {
+				o.fail("pool-waiter-blocked-past-deadline", "requester %d called AcquireConn at %v with a wait limit of %v and was still blocked at %v (returned conn=%v err=%v)", i, t0, timeout, until, cc != nil, err)
+			}
 		}
 		switch {
 		case cc != nil && err != nil:
@@ -274,13 +280,10 @@ func (o *c18obs) requester(i int, prog []c18op) {
 			r.kind = "conn"
 		case err == ErrNoFreeConns:
 			r.kind = "nofree"
-			if r.waited && overridden {
-				o.fail("pool-waiter-wrong-error", "waiter bounded by its request timeout got ErrNoFreeConns instead of ErrTimeout")
-			}
 		case err == ErrTimeout:
 			r.kind = "timeout"
-			if !r.waited || !overridden {
-				o.fail("pool-acquire-unexpected-errtimeout", "AcquireConn returned ErrTimeout (waited=%v, request timeout shorter than MaxConnWaitTimeout=%v)", r.waited, overridden)
+			if !r.waited {
+				o.fail("pool-errtimeout-without-waiting", "AcquireConn returned ErrTimeout to a request that never waited")
 			}
 		case err == errC18Dial:
 			r.kind = "dialerr"
@@ -294,12 +297,6 @@ func (o *c18obs) requester(i int, prog []c18op) {
 		if r.waited {
 			if o.s.wait <= 0 {
 				o.fail("pool-queued-without-wait-timeout", "a request was queued although MaxConnWaitTimeout=0")
-			}
-			if o.s.deadline {
-				mcrt.Covered("waiter-deadline-checked")
-			}
-			if o.s.deadline && until > t0+timeout {
-				o.fail("pool-waiter-blocked-past-deadline", "requester %d called AcquireConn at %v with a wait limit of %v and was still blocked at %v (result %s)", i, t0, timeout, until, r.kind)
 			}
 			switch r.kind {
 			case "nofree", "timeout":
